@@ -15,7 +15,8 @@ RULE = ('result tables whose values are file names containing every byte 1..127 
         'name, multi-byte UTF-8, every ordered pair of 20 separator/markup characters, and combinations of every format\'s separators; 0, 1, 2 and many rows; 1..6 distinct plain '
         'columns; x six formats x four result paths (streamed, ordered buffer, single aggregate row, grouped rows) x '
         'limited/unlimited; every decoded table must equal the table decoded from `into list` of the same query; '
-        'non-trivial = table has at least one value containing a separator or markup character of the format')
+        'non-trivial = table has at least one value containing a separator or markup character of the format'
+        '; group rows under LIMIT 1/3/7 (the same command three times: the rows must not vary) with plain, ordered and all-tied ORDER BY; select lists that name a column two to four times')
 ASSUMPTIONS = ['JSON key names are not specified: objects are matched to list rows by a column permutation that is constant '
                'over the table', 'HTML is tokenised with html.parser (HTML syntax, not XML)',
                'tabs/lines are compared on tables whose values contain no tab/newline/carriage return',
